@@ -7,10 +7,10 @@ OFFSET = int(os.environ.get('SEED_OFFSET', '0'))      # round 2 of the seeding i
 props = [a for a in sys.argv[1:] if not a.startswith('--')] or sorted(d for d in os.listdir('/tmp/seed') if re.fullmatch(r'C\d\d', d))
 jobs = []
 for P in props:
-    for n in (1, 2):
+    for n in (1, 2, 3):
         src = '/tmp/seed/%s/seed%d' % (P, n)
         if not os.path.exists(os.path.join(src, 'patch.diff')): continue
-        if re.fullmatch(r'T\d+', P):      # themed round: the sub-agent chose the property; stored under the next free index of that property
+        if re.fullmatch(r'[TU]\d+', P):      # themed round: the sub-agent chose the property; stored under the next free index of that property
             prop = json.load(open(os.path.join(src, 'meta.json'))).get('property')
             k = 1
             while os.path.exists(os.path.join(V, 'seeded', '%s-%d' % (prop, k))): k += 1
